@@ -15,6 +15,8 @@ pub trait Fld: StarkField + Sized {
     fn canon(&self) -> u128;
     fn raw_ok(r: u128) -> bool; // representation invariant
     fn exp_u(self, e: u128) -> Self;
+    /// `FieldElement::exp_vartime` (the trait's default implementation)
+    fn expv_u(self, e: u128) -> Self;
     fn try_u128(v: u128) -> Result<Self, ()>;
     fn word_bits() -> u32;
 }
@@ -39,6 +41,9 @@ impl Fld for f64::BaseElement {
     }
     fn exp_u(self, e: u128) -> Self {
         self.exp(e as u64)
+    }
+    fn expv_u(self, e: u128) -> Self {
+        self.exp_vartime(e as u64)
     }
     fn try_u128(v: u128) -> Result<Self, ()> {
         <Self as TryFrom<u128>>::try_from(v).map_err(|_| ())
@@ -69,6 +74,9 @@ impl Fld for f62::BaseElement {
     fn exp_u(self, e: u128) -> Self {
         self.exp(e as u64)
     }
+    fn expv_u(self, e: u128) -> Self {
+        self.exp_vartime(e as u64)
+    }
     fn try_u128(v: u128) -> Result<Self, ()> {
         <Self as TryFrom<u128>>::try_from(v).map_err(|_| ())
     }
@@ -98,6 +106,9 @@ impl Fld for f128::BaseElement {
     }
     fn exp_u(self, e: u128) -> Self {
         self.exp(e)
+    }
+    fn expv_u(self, e: u128) -> Self {
+        self.exp_vartime(e)
     }
     fn try_u128(v: u128) -> Result<Self, ()> {
         <Self as TryFrom<u128>>::try_from(v).map_err(|_| ())
